@@ -86,6 +86,9 @@ static int once_runs[256], once_done[256];
 static int sleeps_in_lock[16]; static int in_lock_call[16]; static int in_lock_mu[16];
 /* C12: posts made and waits that succeeded on each test semaphore (conservation oracle at the end of an execution) */
 static int sem_posts_made[MAXOBJ]; static int sem_waits_ok[MAXOBJ]; static int sem_used[MAXOBJ];
+/* C05 / C15: fresh reader acquisitions that began AND succeeded while fiber k's nsync_mu_wait had already passed its deadline (the
+   timed-out waiter must keep new readers out: MU_WRITER_WAITING) */
+static int64_t muwait_dl[16]; static int muwait_mu[16]; static int admitted_past[16];
 static int expect_stuck_ok;
 /* C10: history of the completed nsync_counter_add / nsync_counter_value calls per counter (invocation and response
    times in scheduler steps), checked for linearizability at the end of the execution */
@@ -267,7 +270,11 @@ static void run_prog (void *arg) {
 		struct op *o = &p->ops[i];
 		switch (o->code) {
 		case OP_LOCK: vf_log ("call nsync_mu_lock mu%d", o->a); in_lock_call[me] = 1; in_lock_mu[me] = o->a; sleeps_in_lock[me] = 0; requeues_in_lock[me] = 0; vf_api_enter (); nsync_mu_lock (&mus[o->a]); vf_api_leave (); in_lock_call[me] = 0; check_starved (me, "nsync_mu_lock"); shadow_acq (o->a, 1); vf_log ("ret nsync_mu_lock -"); break;
-		case OP_RLOCK: vf_log ("call nsync_mu_rlock mu%d", o->a); in_lock_call[me] = 1; in_lock_mu[me] = o->a; sleeps_in_lock[me] = 0; requeues_in_lock[me] = 0; vf_api_enter (); nsync_mu_rlock (&mus[o->a]); vf_api_leave (); in_lock_call[me] = 0; check_starved (me, "nsync_mu_rlock"); shadow_acq (o->a, 0); vf_log ("ret nsync_mu_rlock -"); break;
+		case OP_RLOCK: { int64_t began = vf_now (); int k; int retry0[16];
+			for (k = 0; k != 16; k++) { retry0[k] = vf_retry_loads (k); } /* how far each timed-out waiter was in its re-acquisition spin when this call began */
+			vf_log ("call nsync_mu_rlock mu%d", o->a); in_lock_call[me] = 1; in_lock_mu[me] = o->a; sleeps_in_lock[me] = 0; requeues_in_lock[me] = 0; vf_api_enter (); nsync_mu_rlock (&mus[o->a]); vf_api_leave (); in_lock_call[me] = 0; check_starved (me, "nsync_mu_rlock"); shadow_acq (o->a, 0); vf_log ("ret nsync_mu_rlock -");
+			for (k = 0; k != 16; k++) { if (k != me && muwait_dl[k] != 0 && muwait_mu[k] == o->a && began > muwait_dl[k] && retry0[k] >= 6) { admitted_past[k]++; } }
+			break; }
 		case OP_UNLOCK: vf_log ("call nsync_mu_unlock mu%d", o->a); shadow_rel (o->a, 1); vf_api_enter (); nsync_mu_unlock (&mus[o->a]); vf_api_leave (); vf_log ("ret nsync_mu_unlock -"); break;
 		case OP_UNLOCK_NW: vf_log ("call nsync_mu_unlock_without_wakeup mu%d", o->a); shadow_rel (o->a, 1); vf_api_enter (); nsync_mu_unlock_without_wakeup (&mus[o->a]); vf_api_leave (); vf_log ("ret nsync_mu_unlock_without_wakeup -"); break;
 		case OP_RUNLOCK: vf_log ("call nsync_mu_runlock mu%d", o->a); shadow_rel (o->a, 0); vf_api_enter (); nsync_mu_runlock (&mus[o->a]); vf_api_leave (); vf_log ("ret nsync_mu_runlock -"); break;
@@ -284,7 +291,7 @@ static void run_prog (void *arg) {
 		case OP_RD: vf_log ("data r x%d %d", o->a, vars[o->a]); break;
 		case OP_YIELD: vf_sched_note (); break;
 		case OP_ADVANCE: vf_advance ((int64_t) o->a); break;
-		case OP_AFTER_BLOCKED: vf_wait_fiber_blocked (o->a); break; /* deterministic set-up order: go on once fiber a sleeps (or is done) */
+		case OP_AFTER_BLOCKED: vf_wait_fiber_blocked (o->a + (o->b ? 1000 : 0)); break; /* deterministic set-up order: go on once fiber a sleeps (or is done) */
 		case OP_CVWAIT: case OP_AWAIT: {
 			int res = 0; nsync_time t = mk_deadline (o, dt, sizeof (dt));
 			nsync_note cn = o->e >= 0 ? notes[o->e] : NULL;
@@ -314,11 +321,14 @@ static void run_prog (void *arg) {
 			if (c) { vf_log ("condarg c%d x%d %d eq=%d", c->id, (int) (c->var - vars), c->val, cond_eq[o->b]); }
 			shadow_rel (o->a, wmode);
 			vf_api_enter ();
-			if (me >= 0 && me < 16) { waiting_cond[me] = c; waiting_mu[me] = o->a; }
+			if (me >= 0 && me < 16) { waiting_cond[me] = c; waiting_mu[me] = o->a; admitted_past[me] = 0; vf_retry_loads_reset (); muwait_mu[me] = o->a; muwait_dl[me] = (o->d.kind == 3 && cn == NULL) ? dl_ns (o) : 0; }
 			res = nsync_mu_wait_with_deadline (&mus[o->a], c ? (c->kind ? &cond_fn_ge : &cond_fn_eq) : NULL, c, c && cond_eq[o->b] ? &cond_arg_eq : NULL, t, cn);
-			if (me >= 0 && me < 16) { waiting_cond[me] = NULL; }
+			if (me >= 0 && me < 16) { waiting_cond[me] = NULL; muwait_dl[me] = 0; }
 			vf_api_leave ();
 			shadow_acq (o->a, wmode);
+			if (me >= 0 && me < 16 && res == ETIMEDOUT && admitted_past[me] > 40) {
+				vf_violation ("timed-starved", "nsync_mu_wait_with_deadline: %d nsync_mu_rlock calls that began after the timed-out caller had gone round its re-acquisition loop three times were admitted before it got the mutex back (it must keep new readers out: MU_WRITER_WAITING)", admitted_past[me]);
+			}
 			vf_log ("ret nsync_mu_wait_with_deadline %s", res == 0 ? "0" : res == ETIMEDOUT ? "ETIMEDOUT" : res == ECANCELED ? "ECANCELED" : "?");
 			check_wait_result ("nsync_mu_wait_with_deadline", res, o, cn);
 			if (c) {
@@ -484,6 +494,7 @@ static int parse_op (char *s, struct op *o) {
 	else if (IS ("yield")) { o->code = OP_YIELD; }
 	else if (IS ("advance")) { o->code = OP_ADVANCE; o->a = n > 1 ? atoi (tok[1]) : 0; }
 	else if (IS ("after_blocked")) { o->code = OP_AFTER_BLOCKED; o->a = n > 1 ? atoi (tok[1]) : 0; }
+	else if (IS ("after_done")) { o->code = OP_AFTER_BLOCKED; o->a = n > 1 ? atoi (tok[1]) : 0; o->b = 1; }   /* go on once fiber a has ended */
 	else if (IS ("cvwait")) { o->code = OP_CVWAIT; o->a = A (1, "cv"); o->b = A (2, "mu"); parse_dl (n > 3 ? tok[3] : NULL, o); o->e = n > 4 ? objnum (tok[4], "n") : -1; }
 	else if (IS ("await")) { o->code = OP_AWAIT; o->a = A (1, "cv"); o->b = A (2, "mu"); o->c = A (3, "x"); o->nobj = n > 4 ? atoi (tok[4]) : 0; parse_dl (n > 5 ? tok[5] : NULL, o); o->e = n > 6 ? objnum (tok[6], "n") : -1; }
 	else if (IS ("signal")) { o->code = OP_SIGNAL; o->a = A (1, "cv"); }
@@ -670,6 +681,8 @@ static void apply_kv (struct vf_config *cfg, const char *kv, int **script_store)
 	else if (strncmp (kv, "plainsched=", 11) == 0) { cfg->plain_sched = atoi (kv + 11); }
 	else if (strncmp (kv, "failmalloc=", 11) == 0) { cfg->fail_malloc_at = atoi (kv + 11); }
 	else if (strncmp (kv, "failmallocfrom=", 15) == 0) { cfg->fail_malloc_from = atoi (kv + 15); }
+	else if (strncmp (kv, "failctor=", 9) == 0) { cfg->fail_ctor_at = atoi (kv + 9); }
+	else if (strncmp (kv, "threadexit=", 11) == 0) { cfg->thread_exit = atoi (kv + 11); }
 	else if (strncmp (kv, "futexfault=", 11) == 0) { cfg->futex_fault_prob = atoi (kv + 11); }
 	else if (strncmp (kv, "sched=", 6) == 0) {
 		/* comma separated tids, T = tick */
